@@ -152,6 +152,64 @@ def leg_loop(part, tier, shard, nshards):
     drive(part, "loopback", loop_cases(tier), shard, nshards, check_loop)
 
 
+# -- sessions: several calls on one proxy (state carried from one call to the next) ------------------------
+
+
+def session_cases(tier):
+    leaves = gen.SMALL_LEAVES + [2 ** 53, -0.0, "\U0001F600", [1, [2]], {"k": {"a": None}}]
+    steps = [("f", "pos1"), ("ns.f", "kw2"), ("a.b.c", "pos2"), ("名前", "none"), ("BATCH", ""), ("NOTIFY", "pos1"), ("with space", "kw1")]
+    L = 4 if tier == "thorough" else 3
+    for seq in itertools.product(range(len(steps)), repeat=L):
+        for vi in (0, 5, 11):
+            for ver in (VERSIONS if tier == "thorough" else VERSIONS[:2]):
+                yield (seq, vi, ver)
+
+
+def check_session(case):
+    seq, vi, (cv, sv) = case
+    leaves = gen.SMALL_LEAVES + [2 ** 53, -0.0, "\U0001F600", [1, [2]], {"k": {"a": None}}]
+    steps = [("f", "pos1"), ("ns.f", "kw2"), ("a.b.c", "pos2"), ("名前", "none"), ("BATCH", ""), ("NOTIFY", "pos1"), ("with space", "kw1")]
+    out = Out(cls="session")
+    d, reg = loop_world(sv, True)
+    t = LoopbackTransport(d)
+    hist = History()
+    proxy = jsonrpclib.ServerProxy("http://h/", transport=t, version=cv, history=hist)
+    for pos, si in enumerate(seq):
+        name, style = steps[si]
+        v = leaves[(vi + pos * 3) % len(leaves)]
+        w = leaves[(vi + pos * 5 + 1) % len(leaves)]
+        r = leaves[(vi + pos * 7 + 2) % len(leaves)]
+        del reg.log[:]
+        reg.ret = r
+        try:
+            if name == "BATCH":
+                mc = jsonrpclib.MultiCall(proxy)
+                mc.f(v)
+                mc._notify.f(w)
+                got = list(mc())
+                if not gen.same(got, [gen.normalise(r)]) or len(reg.log) != 2:
+                    out.bad("C01/session/batch-differs", "session %r step %d: batch results %r, log %r" % (case, pos, got, reg.log))
+            elif name == "NOTIFY":
+                got = proxy._notify.f(v)
+                if got is not None or not gen.same(gen.normalise([list(e) for e in reg.log]), gen.normalise([["f", [v], {}]])):
+                    out.bad("C01/session/notification-differs", "session %r step %d: returned %r, log %r" % (case, pos, got, reg.log))
+            else:
+                args, kwargs = build_args(style, v, w)
+                got = get_method(proxy, name, False)(*args, **kwargs)
+                judge_call(out, "session", reg, name, args, kwargs, r, got, None)
+        except Exception as ex:
+            out.bad("C01/session/raises-%s" % type(ex).__name__, "session %r step %d raised %r" % (case, pos, ex))
+        if out.viols:
+            break
+    if hist.requests != [x[2] for x in t.sent] or hist.responses != t.replies:
+        out.bad("C01/history-differs-from-exchanged-texts", "session %r: history does not equal the exchanged texts in order" % (case,))
+    return out
+
+
+def leg_session(part, tier, shard, nshards):
+    drive(part, "sessions", session_cases(tier), shard, nshards, check_session)
+
+
 # -- MultiCall ----------------------------------------------------------------------------------
 
 JOBS = [("f", "pos1"), ("ns.f", "kw1"), ("a.b.c", "pos2"), ("名前", "none"), ("N:f", "pos1"), ("N:with space", "kw2")]
@@ -306,14 +364,15 @@ def leg_net(part, tier, shard, nshards):
         stop_servers()
 
 
-LEGS = {"loopback": leg_loop, "multicall": leg_batch, "kernel-sockets": leg_net}
+LEGS = {"loopback": leg_loop, "sessions": leg_session, "multicall": leg_batch, "kernel-sockets": leg_net}
 
 META = {
     "technique": "bounded-exhaustive enumeration of names, argument styles, JSON values, call forms and protocol versions through the real client and "
     "dispatcher (loopback) and through real servers over kernel TCP/Unix sockets, with a recording callable and type-exact comparison",
     "rule": "loopback: 9 method names (identifier, dotted registered name, instance attribute path, non-ASCII, with space, hyphen, underscore, keyword) x 5 "
     "argument styles x 23 leaf values x client/server versions {1.0,2.0}^2 x translation on/off x {plain, dotted chain}; plus every JSON value of depth <=1 "
-    "(thorough <=2, capped at 60000) width <=2 as argument and return value; multicall: every batch of <=3 jobs over 6 job kinds (calls and notifications) x "
+    "(thorough <=2, capped at 60000) width <=2 as argument and return value; sessions: every sequence of 3 (thorough 4) steps over {4 calls, batch, notification, "
+    "keyword call} on one proxy with one History; multicall: every batch of <=3 jobs over 6 job kinds (calls and notifications) x "
     "values x server version; kernel-sockets: SimpleJSONRPCServer and PooledJSONRPCServer x TCP/Unix x versions x 29 values (leaves, nested, >1 KiB "
     "multi-byte); every case non-trivial",
     "bounds": {"quick": {"value_depth": 1, "batch_len": 3}, "thorough": {"value_depth": 2, "batch_len": 3}},
@@ -327,6 +386,8 @@ def replay(case):
         return check_loop(c).viols
     if case["leg"] == "multicall":
         return check_batch(c).viols
+    if case["leg"] == "sessions":
+        return check_session(c).viols
     try:
         return check_net(c).viols
     finally:
